@@ -22,7 +22,7 @@ type c16Case struct {
 // configurations (whose method lists are discrete in this alphabet), a method that is not listed.
 func c16Baseline(l CfgLit) vlib.Req {
 	if isAllowAll(l) {
-		return vlib.Req{Method: "OPTIONS", Hdr: map[string][]string{"Origin": {"https://a.example"}, "Access-Control-Request-Method": {"NOTLISTED"}}}
+		return vlib.Req{Method: "OPTIONS", Hdr: map[string][]string{"Origin": {"https://a.example"}, "Access-Control-Request-Method": {"GET"}, "Access-Control-Request-Private-Network": {"true"}}}
 	}
 	return vlib.Req{Method: "OPTIONS", Hdr: map[string][]string{"Origin": {"https://denied.example"}, "Access-Control-Request-Method": {"GET"}}}
 }
@@ -180,6 +180,12 @@ func checkC16(c *vlib.Ctx) (string, string) {
 			}
 		}
 	}
+	base = append(base,
+		CfgLit{Origins: []string{"*"}, Methods: []string{"*"}, RequestHeaders: []string{"*"}},
+		CfgLit{Origins: []string{"*"}, Methods: []string{"*"}, RequestHeaders: []string{"*", "Authorization"}, ResponseHeaders: []string{"*"}, MaxAge: 600},
+		CfgLit{Origins: []string{co, "*"}, Methods: []string{cm, "*"}, RequestHeaders: []string{ch, "*"}},
+		CfgLit{Origins: []string{"*"}, Methods: []string{"*"}},
+		CfgLit{Origins: []string{"*"}, RequestHeaders: []string{"*"}})
 	var cfgs []CfgLit
 	for _, b := range base {
 		for i, st := range []int{0, 200, 204, 299} {
